@@ -27,7 +27,7 @@ DECIDING = ["dt.add", "dt.subtract", "date.add", "date.subtract", "add_duration"
 FLOORS = {"quick": {"dt.add": 50000, "date.add": 10000, "threeway": 10000, "neg_add_eq_subtract": 10000, "operators": 10000},
           "thorough": {"dt.add": 500000, "date.add": 100000, "threeway": 100000, "neg_add_eq_subtract": 100000, "operators": 100000}}
 REQUIRED_HOOKS = ["DateTime.add", "DateTime.subtract", "Date.add", "Date.subtract"]   # private hooks (add_duration, _add_timedelta_ ...) add reach only
-TECHNIQUE = "runtime contracts on add/subtract/operator paths against an independent calendar model (month shift + clamp + C02 normalisation); three-way operator/method agreement checker"
+TECHNIQUE = "runtime contracts on add/subtract/operator paths against an independent calendar model (month shift + clamp + C02 normalisation); three-way operator/method agreement checker; Duration operands incl. ones whose days are only implied by their time units"
 LEVEL_TEXT = ("every observed calendar add/subtract on DateTime and Date, and every +/- with a Duration or Interval, is judged "
               "against an independent calendar model followed by the tz-database normalisation oracle; workloads aim at "
               "month-end clamps and at targets inside every gap/overlap; held on what was observed")
